@@ -59,6 +59,9 @@ def run_case(n_sims: int, transport: list, faulty: int, index: int, kind: str, t
                 ents.append(fac.M())
             for i in range(n_sims - 1):
                 world.connect(ents[i], ents[i + 1], ("o", "a"))
+            from loguru import logger as _lg
+            errors = []
+            sink_id = _lg.add(lambda m: errors.append(str(m)[:160]), level="ERROR")
             try:
                 world.run(until=3, print_progress=False)
                 res["outcome"] = "returned"
@@ -67,6 +70,9 @@ def run_case(n_sims: int, transport: list, faulty: int, index: int, kind: str, t
             except BaseException as e:  # noqa: BLE001
                 res["outcome"] = "raised " + type(e).__name__
                 res["message"] = str(e)[:120]
+            finally:
+                _lg.remove(sink_id)
+                res["error_logged"] = bool(errors)
         res["elapsed"] = round(time.time() - t0, 2)
         res["loop_closed"] = loop.is_closed()
         pend = [t for t in asyncio.all_tasks(loop) if not t.done()]
@@ -146,6 +152,8 @@ def judge(res: dict) -> list:
         return vio
     if res["outcome"] == "returned" and res["kind"] == "exit" and res.get("fault_reached", True):
         vio.append({"law": "a dying simulator makes run() end with an error", **res})
+    if res["outcome"] == "returned" and res.get("fault_reached", True) and not res.get("error_logged"):
+        vio.append({"law": "a failing simulator makes run() end with an error or a logged remote error", **res})
     if res.get("elapsed", 0) > 5:
         vio.append({"law": "run() terminates promptly", **res})
     for sid, c in res["finalize_counts"].items():
